@@ -22,7 +22,7 @@ from vf import ep, gen
 PROP = "C02"
 LEVEL = "exploration"
 ENGINE = "EP+XY"
-N = {"quick": 700, "thorough": 40000}
+N = {"quick": 600, "thorough": 40000}
 TIME = {"quick": 50, "thorough": 540}
 RULE = ("Twin runs. Stream S and S' = S with the VALUES (prices, payloads, table cells) of everything stamped after a cut perturbed, "
         "timestamps and insertion order untouched; a fixed pre-drawn action sequence. Per call the digest of (observation incl. a "
@@ -36,7 +36,7 @@ RULE = ("Twin runs. Stream S and S' = S with the VALUES (prices, payloads, table
         "event before the end of the episode.")
 ASSUMPTIONS = ["value perturbations only: adding/removing future timestamps legitimately changes `done`"]
 REQUIRED = ["C02:no-lookahead", "C02:next-trades-independent-of-future", "C02:xy-no-lookahead"]
-REQUIRED_CATS = ["custom-events-from-table", "xy-sparse-features", "generic", "xy", "xy-nan-straddles-cut", "xy-row-missing-at-cut", "cut:first", "cut:last", "latency>0", "late-fold", "markov", "warmup"]
+REQUIRED_CATS = ["transmitter-used-before-with-larger-latency", "xy-prefitted-transformer", "custom-events-from-table", "xy-sparse-features", "generic", "xy", "xy-nan-straddles-cut", "xy-row-missing-at-cut", "cut:first", "cut:last", "latency>0", "late-fold", "markov", "warmup"]
 TECHNIQUE = "runtime monitoring: twin executions on streams that agree up to the cut, compared call by call on canonical digests"
 LEVEL_TEXT = ("Exploration by twin runs: the same real environment is executed on two inputs that agree on everything stamped <= t; any "
               "difference in an output landing at or before t is a witness of look-ahead. Fixed actions prevent a leak from hiding "
@@ -61,7 +61,7 @@ class FA(Feature):
 
 
 def run_generic(spec, pert_after=None, prng=None):
-    grid, evspec, L, d, acts, cs, fold, markov, warm, table = spec
+    grid, evspec, L, d, acts, cs, fold, markov, warm, table, Lfirst = spec
     evs = []
     rows = []
     npert = 0
@@ -85,6 +85,10 @@ def run_generic(spec, pert_after=None, prng=None):
     if rows:
         df = pd.DataFrame([r[1] for r in rows], index=pd.DatetimeIndex([r[0] for r in rows]))
         tr.add_custom_events(df, ep.EvA)
+    if Lfirst is not None:
+        # the transmitter was first used by ANOTHER environment with a larger latency (a latency sweep
+        # on data loaded once); the environment under test is built afterwards
+        TradingEnv(action_space=BoxPortfolio(cs, -1, 1), transmitter=tr, latency=Lfirst)
     sink = ep.Sink()
     env = TradingEnv(action_space=BoxPortfolio(cs, -1, 1), transmitter=tr,
                      state=ep.Rec(sink, features=[FA()]),
@@ -146,7 +150,7 @@ def generic(ctx):
             uid += 1
             ev.append(("q", t, c, p, p * 1.001, uid))
         gap = gaps[min(k, n - 2)]
-        for off in [L - 0.5, L, L + 0.5, gap * 0.7]:
+        for off in [L - 0.5, L, L + 0.5, L + 12, gap * 0.7]:
             if 0 < off < gap and k < n - 1 and rng.random() < 0.5:
                 uid += 1
                 if rng.random() < 0.5:
@@ -163,7 +167,11 @@ def generic(ctx):
     table = rng.random() < 0.3
     if table:
         ctx.cat("custom-events-from-table")
-    spec = (grid, ev, L, d, acts, cs, fold, markov, warm, table)
+    Lfirst = None
+    if rng.random() < 0.25 and min(gaps) > 40:
+        Lfirst = 30
+        ctx.cat("transmitter-used-before-with-larger-latency")
+    spec = (grid, ev, L, d, acts, cs, fold, markov, warm, table, Lfirst)
     steps = grid[i0:]
     base, _ = run_generic(spec)
     which = rng.choice(["first", "middle", "last"])
@@ -238,8 +246,17 @@ def xy(ctx):
     sd = r.choice([0, 1])
     acts = [np.array([0.3, -0.2]), np.array([0., 0.5]), np.array([-0.4, 0.1])]
 
+    prefit = tf == "z-score" and r.random() < 0.5
+    if prefit:
+        ctx.cat("xy-prefitted-transformer")
+
     def run(X, Y, rate):
-        env = TradingEnvXY(X.copy(), Y.copy(), transformer=tf, transformer_end=tfit, window=window, rate=rate.copy(),
+        tfm = tf
+        if prefit:
+            # an ALREADY FITTED transformer instance (fitted on data up to tfit) is handed over
+            from sklearn.preprocessing import StandardScaler
+            tfm = StandardScaler().fit(X.loc[:tfit].dropna())
+        env = TradingEnvXY(X.copy(), Y.copy(), transformer=tfm, transformer_end=tfit, window=window, rate=rate.copy(),
                            steps_delay=sd)
         out = []
         o = env.reset()
